@@ -170,6 +170,9 @@ def w1(ctx, Fr, F):
                                         mx = max(v["discr"] for v in Fr.adts[ety]["variants"])
                                         ok = lenv is not None and 0 <= mx < lenv
                                         found["index"] = "%s as usize (max %d)" % (ety, mx)
+                if not ok and t["msg"] == "BoundsCheck" and p15.bounds_by_intervals(fn, bi):
+                    ok = True
+                    found["index"] = "within the length on every path (interval analysis)"
                 ctx.check("C17.W1", "panic-edge:%s#%d:%s" % (p, k_in_fn, t["msg"]), ok, fn=p, file=fn["file"], line=mir.span_line(t),
                           what="a panic edge reachable from the FEN importer is not discharged: some input string can abort the process "
                                "instead of being refused with an error", found=found)
